@@ -21,7 +21,7 @@ from sx.terms import DIGIT, LOWER, UPPER, PChar, category_ranges, complement, in
 BOUNDS = {"quick": {"countries": "the 19 computing countries + DE, GB + 8 seeded others with positions + 2 without positions + unknown country", "lengths": "full widths; each component one shorter / one longer (others full); empty branch; combined bank+branch width", "alphabet": "ASCII digits, ASCII letters of either case and every upper-case-stable code point; whitespace, expanding and non-ASCII case-changing code points are covered by Lemma N on clean() only"},
           "thorough": {"countries": "all", "lengths": "every component 0..width+2 one at a time (others full), combined width, plus 12 seeded triples per country", "alphabet": "as quick"}}
 STUBS = ["str.zfill incl. sign rule", "as C01"]
-ASSUMPTIONS = ["IT/SM account characters are digits or non-alphanumeric here (letter patterns: C09)", "a bank code of combined bank+branch width supplied together with a non-empty branch code is outside the claim (the statement does not say which of the two conflicting inputs wins)",
+ASSUMPTIONS = ["IT/SM/FI component characters are digits or non-alphanumeric here (letter patterns: C06-N, C09-A)", "a bank code of combined bank+branch width supplied together with a non-empty branch code is outside the claim (the statement does not say which of the two conflicting inputs wins)",
                "whitespace, expanding and non-ASCII case-changing code points inside components: clean() is covered by Lemma N (C01/C04), their images are then ordinary characters of the alphabet used here"]
 MAXTASKS = 20
 _dom = {}
@@ -103,8 +103,10 @@ def run_one(cc, lb, la, lbr, res):
         bank = [gen_char(f"k{i}") for i in range(lb)]
         acct = [gen_char(f"a{i}") for i in range(la)]
         br = [gen_char(f"r{i}") for i in range(lbr)]
-        if cc in ("IT", "SM"):
-            for c in acct:  # the CIN code forks on digit-vs-letter per character (2^12): letters in accounts are C09-A's patterns
+        if cc in ("IT", "SM", "FI"):
+            # these national algorithms fork on digit-vs-letter for every character (try/except in get_index, the width
+            # of the Luhn expansion): components are digits or non-alphanumeric here; letter patterns are C09-A / C06-N
+            for c in bank + acct + br:
                 ctx.add(z3.Not(z3.Or(c.kind("u"), c.kind("l"))))
         holder.update(bank=bank, acct=acct, br=br)
         return IBAN.generate(cc, H.symstr(bank) if bank else "", H.symstr(acct) if acct else "", H.symstr(br) if br else "")
